@@ -291,6 +291,11 @@ def gen_workload(tape):
             matches.append([0, [0]])
         w["matches"] = matches
         w["return_info"] = not tape.flag("align_no_info", 1, 3)
+    # the consumer of imap/icollect stops after some items and closes the
+    # generator: what was yielded is a prefix of the sequential answer, nothing
+    # is read twice, no task stays behind, the pool is shut down
+    w["abandon"] = tape.choice(3, "abandon_after") \
+        if w["op"] in ("imap", "icollect") and tape.flag("abandon", 1, 5) else None
     # faults
     keys_a = [_fkey("a", i, w) for i in range(n)]
     keys_b = [_fkey("b", j, w) for j in range(w.get("m", 0))]
@@ -649,8 +654,13 @@ def _drive(w, fs_a, fs_b, infos_a, infos_b, outcome, out_fs=None):
             return _plain(fs_a.map(**call))
         got = []
         outcome["partial"] = got
-        for r in fs_a.imap(**call):
+        gen = fs_a.imap(**call)
+        for r in gen:
             got.append(_plain(r))
+            if w.get("abandon") is not None and len(got) > w["abandon"]:
+                gen.close()           # the consumer walks away half-way
+                outcome["abandoned"] = True
+                break
         return got
     call = dict(**opts, **kw)
     call.pop("on_content", None)
@@ -659,8 +669,13 @@ def _drive(w, fs_a, fs_b, infos_a, infos_b, outcome, out_fs=None):
         return _plain(r)
     got = []
     outcome["partial"] = got
-    for r in fs_a.icollect(**call):
+    gen = fs_a.icollect(**call)
+    for r in gen:
         got.append(_plain(r))
+        if w.get("abandon") is not None and len(got) > w["abandon"]:
+            gen.close()
+            outcome["abandoned"] = True
+            break
     return got
 
 
@@ -758,6 +773,20 @@ def _oracle(w, st, sim, pools, outcome, policy):
     exp_values = [v for k, v, *_ in seq if k == "value"]
     exp_raise = next((x for x in seq if x[0] == "raise"), None)
     got = outcome.get("got") if end == "returned" else outcome.get("partial")
+    if outcome.get("abandoned") and end == "returned":
+        sim.probe("generator_abandoned_half_way")
+        k = len(got)
+        if _norm(got) != _norm(exp_values[:k]):
+            V.append(_viol(f"C10/{op}/results-before-abandoning",
+                           f"yielded {_norm(got)!r}, the sequential answer starts with "
+                           f"{_norm(exp_values[:k])!r}"))
+        twice = {k_: c for k_, c in st.reads.items() if c > 1}
+        if twice:
+            V.append(_viol(f"C10/{op}/read-count", f"read more than once: {twice}"))
+        if outcome.get("tmp_left"):
+            V.append(_viol(f"C10/{op}/temp-debris",
+                           f"left in the temporary directory: {outcome['tmp_left'][:3]}"))
+        return V
     if exp_raise is not None:
         exc = outcome.get("exc")
         want_t = InjectedRead if exp_raise[1] == "read" else InjectedFuncError
